@@ -20,6 +20,7 @@ import (
 
 	"github.com/axiomhq/hyperloglog"
 	"github.com/blugelabs/bluge"
+	"github.com/blugelabs/bluge/index"
 	"github.com/blugelabs/bluge/numeric"
 	"github.com/blugelabs/bluge/search"
 	"github.com/blugelabs/bluge/search/aggregations"
@@ -306,7 +307,7 @@ func (r *aggsRecNum) Numbers(m *search.DocumentMatch) []float64 {
 
 // aggsBuilt: a bluge aggregation built from a spec, with the logs of its recording sources
 type aggsBuilt struct {
-	agg    search.Aggregation
+	agg     search.Aggregation
 	textLog *[][]byte
 	numLog  *[]float64
 }
@@ -378,8 +379,8 @@ func (a *aggsSpec) build() aggsBuilt {
 
 type aggsObs struct {
 	coq   string
-	value float64             // metrics
-	bks   []aggsObsBucket     // bucket aggregations, returned order
+	value float64         // metrics
+	bks   []aggsObsBucket // bucket aggregations, returned order
 	other int
 	fedT  [][]byte
 	fedN  []float64
@@ -401,12 +402,16 @@ func aggsReadSubs(subs []aggsNamed, b *search.Bucket) ([]aggsObs, string) {
 	return out, cq.List(it)
 }
 
+// aggsSketchOnly: read sketch calculators by their estimate only (merged buckets: the recording
+// logs belong to the shards)
+var aggsSketchOnly bool
+
 func aggsRead(a *aggsSpec, c search.Calculator, built aggsBuilt) aggsObs {
 	o := aggsObs{calc: c}
 	switch a.kind {
 	case "card":
 		o.value = c.(search.MetricCalculator).Value()
-		if a.nested {
+		if a.nested || aggsSketchOnly {
 			o.coq = "OSketch"
 			break
 		}
@@ -415,7 +420,7 @@ func aggsRead(a *aggsSpec, c search.Calculator, built aggsBuilt) aggsObs {
 		}
 		o.coq = fmt.Sprintf("(OFedT %s)", cq.BytesList(o.fedT))
 	case "quant":
-		if a.nested {
+		if a.nested || aggsSketchOnly {
 			o.coq = "OSketch"
 			break
 		}
@@ -852,6 +857,128 @@ func aggsReuseProbe(w *cq.Writer, tree []aggsNamed, first, second func(aggs sear
 	}
 }
 
+// aggsCollectAll runs collector.AllCollector over stub docs and returns the finished root bucket
+func aggsCollectAll(docs []*topnStubDoc, aggs search.Aggregations) (*search.Bucket, error) {
+	it, err := collector.NewAllCollector().Collect(context.Background(), aggs, topnNewStubSearcher(docs))
+	if err != nil {
+		return nil, err
+	}
+	for {
+		m, err := it.Next()
+		if err != nil {
+			return nil, err
+		}
+		if m == nil {
+			return it.Aggregations(), nil
+		}
+	}
+}
+
+// aggsMergeCase: the match list is cut into 2-3 shards (possibly empty), each aggregated on its
+// own with its own aggregation objects, then the shard buckets are merged into the first with
+// Bucket.Merge, one after the other.  Every shard result and every intermediate merged result is
+// part of the correspondence case; the final merged result is compared with direct counting
+// over the whole list.  Terms buckets are only exact when no shard result and no intermediate
+// result was trimmed, i.e. when the whole list has at most `size` distinct terms; otherwise a
+// disagreement is the known approximation of merging trimmed lists.
+func aggsMergeCase(rng *rand.Rand, w *cq.Writer, tree []aggsNamed, docs []*topnStubDoc, adocs []*aggsDoc, describe func() []string) {
+	n := len(docs)
+	nsh := 2 + rng.Intn(2)
+	cuts := []int{0}
+	for k := 1; k < nsh; k++ {
+		cuts = append(cuts, rng.Intn(n+1))
+	}
+	cuts = append(cuts, n)
+	sort.Ints(cuts)
+	input := func() map[string]interface{} {
+		return map[string]interface{}{"aggs": aggsTreeString(tree), "shard_bounds": cuts, "hits": describe()}
+	}
+	defer func() {
+		aggsSketchOnly = false
+		if r := recover(); r != nil {
+			w.OracleEval(1)
+			in := input()
+			in["panic"] = fmt.Sprint(r)
+			w.OracleFail("C16-panic", "merging shard aggregations panicked", in)
+		}
+	}()
+	var buckets []*search.Bucket
+	var builts [][]aggsBuilt
+	var shardTerms []string
+	for k := 0; k < nsh; k++ {
+		sh := docs[cuts[k]:cuts[k+1]]
+		aggs := search.Aggregations{}
+		built := make([]aggsBuilt, len(tree))
+		for i, a := range tree {
+			built[i] = a.agg.build()
+			aggs.Add(aggsName(a.id), built[i].agg)
+		}
+		b, err := aggsCollectAll(sh, aggs)
+		if err != nil {
+			panic(err)
+		}
+		buckets = append(buckets, b)
+		builts = append(builts, built)
+		it := make([]string, len(tree))
+		for i, a := range tree {
+			it[i] = aggsRead(a.agg, b.Aggregations()[aggsName(a.id)], built[i]).coq
+		}
+		hs := make([]string, len(sh))
+		for i, d := range sh {
+			hs[i] = topnCoqRawHit(d.number, d.score, d.dv, d.tab)
+		}
+		shardTerms = append(shardTerms, cq.Pair(cq.List(hs), cq.List(it)))
+	}
+	aggsSketchOnly = true
+	var steps []string
+	var final []aggsObs
+	for k := 1; k < nsh; k++ {
+		buckets[0].Merge(buckets[k])
+		it := make([]string, len(tree))
+		final = final[:0]
+		for i, a := range tree {
+			o := aggsRead(a.agg, buckets[0].Aggregations()[aggsName(a.id)], builts[0][i])
+			final = append(final, o)
+			it[i] = o.coq
+		}
+		steps = append(steps, cq.List(it))
+	}
+	aggsSketchOnly = false
+	w.Count("merge:cases", 1)
+	w.Count("merge:shards", nsh)
+	for i, a := range tree {
+		// a terms aggregation is exact under merging only if nothing was ever trimmed
+		trimmed := false
+		if a.agg.kind == "terms" {
+			distinct := map[string]bool{}
+			for _, d := range adocs {
+				for _, v := range a.agg.vs.values(d) {
+					distinct[v] = true
+				}
+			}
+			trimmed = len(distinct) > a.agg.size
+		}
+		if trimmed {
+			w.Count("merge:terms-trimmed", 1)
+		}
+		failed := false
+		aggsOracle(w, aggsName(a.id), a.agg, final[i], adocs, func(key, why string) {
+			if failed {
+				return
+			}
+			failed = true
+			if trimmed {
+				key = "C16-merge-terms-trimmed"
+			}
+			in := input()
+			in["setting"] = fmt.Sprintf("Bucket.Merge of %d shards", nsh)
+			w.OracleFail(key, why, in)
+		})
+	}
+	w.Add(fmt.Sprintf("CMerge %s %s\n %s", aggsCoqSubs(tree), cq.List(shardTerms), cq.List(steps)), "merge", n > 0,
+		map[string]interface{}{"hits": n, "aggs": aggsTreeString(tree), "shard_bounds": cuts})
+}
+
 func aggsScoreArithmetic(t []aggsNamed) bool {
 	var usesScore func(s *aggsNSrc) bool
 	usesScore = func(s *aggsNSrc) bool {
@@ -1034,6 +1161,10 @@ func runAggs(o Opts) error {
 				})
 			}
 		}
+		// shards aggregated separately and merged with Bucket.Merge
+		if li%2 == 0 {
+			aggsMergeCase(rng, w, tree, docs, adocs, describe)
+		}
 		// the same aggregation objects for a search over all hits, then over every second hit
 		if n >= 2 {
 			var sub []*topnStubDoc
@@ -1065,6 +1196,16 @@ func runAggs(o Opts) error {
 	// ---- (b) end to end
 	for ii := 0; ii < nIdx; ii++ {
 		if err := aggsEndToEnd(rng, w, ii); err != nil {
+			return err
+		}
+	}
+	// ---- (c) bluge.MultiSearch over 2-3 indexes against direct counting over their union
+	nMulti := 6
+	if o.Thorough() {
+		nMulti = 50
+	}
+	for ii := 0; ii < nMulti; ii++ {
+		if err := aggsMultiSearch(rng, w, ii); err != nil {
 			return err
 		}
 	}
@@ -1296,5 +1437,180 @@ func aggsEndToEnd(rng *rand.Rand, w *cq.Writer, ii int) error {
 			map[string]interface{}{"index": ii, "docs": nd, "query": qk, "matches": n, "aggs": aggsTreeString(tree), "order": topnOrderString(order), "settings": rmeta})
 	}
 	_ = numeric.Float64ToInt64
+	return nil
+}
+
+// ---------------------------------------------------------------- MultiSearch
+
+// aggsMultiSearch: documents spread over 2-3 in-memory indexes; bluge.MultiSearch with a TopNSearch
+// (multisearch.go runs ONE collector over the concatenated searchers) must report the aggregations
+// of the union of the per-index match lists.
+func aggsMultiSearch(rng *rand.Rand, w *cq.Writer, ii int) error {
+	nIdx := 2 + rng.Intn(2)
+	nd := rng.Intn(18)
+	gen := topnGenStubDocs(rng, nd, false, 1, -1)
+	writers := make([]*bluge.Writer, nIdx)
+	for k := range writers {
+		wr, err := bluge.OpenWriter(bluge.InMemoryOnlyConfig())
+		if err != nil {
+			return err
+		}
+		defer wr.Close()
+		writers[k] = wr
+	}
+	byID := map[string]*topnStubDoc{}
+	vocab := []string{"red", "green", "blue"}
+	batches := make([]*index.Batch, nIdx)
+	for k := range batches {
+		batches[k] = bluge.NewBatch()
+	}
+	for i, d := range gen {
+		id := fmt.Sprintf("d%02d", i)
+		byID[id] = d
+		bd := bluge.NewDocument(id)
+		for f, vs := range d.kw {
+			for _, v := range vs {
+				bd.AddField(bluge.NewKeywordField(topnFieldName(f), v).Aggregatable().Sortable())
+			}
+		}
+		for f, vs := range d.nums {
+			for _, v := range vs {
+				bd.AddField(bluge.NewNumericField(topnFieldName(f), v).Aggregatable().Sortable())
+			}
+		}
+		for f, vs := range d.dates {
+			for _, v := range vs {
+				bd.AddField(bluge.NewDateTimeField(topnFieldName(f), time.Unix(0, v).UTC()).Aggregatable().Sortable())
+			}
+		}
+		var words []string
+		for k := 1 + rng.Intn(3); k > 0; k-- {
+			words = append(words, vocab[rng.Intn(len(vocab))])
+		}
+		bd.AddField(bluge.NewTextField("t", strings.Join(words, " ")))
+		batches[rng.Intn(nIdx)].Insert(bd)
+	}
+	readers := make([]*bluge.Reader, nIdx)
+	for k := range writers {
+		if err := writers[k].Batch(batches[k]); err != nil {
+			return err
+		}
+		rd, err := writers[k].Reader()
+		if err != nil {
+			return err
+		}
+		defer rd.Close()
+		readers[k] = rd
+	}
+	tree := aggsGenTree(rng)
+	var mkQuery func() bluge.Query
+	if rng.Intn(2) == 0 {
+		mkQuery = func() bluge.Query { return bluge.NewMatchAllQuery() }
+	} else {
+		mkQuery = func() bluge.Query { return bluge.NewMatchQuery("red blue").SetField("t") }
+		for aggsScoreArithmetic(tree) {
+			tree = aggsGenTree(rng)
+		}
+	}
+	order := []topnSortComp{{kind: 1, field: []int{0, 1, 5}[rng.Intn(3)], desc: rng.Intn(2) == 0, first: rng.Intn(2) == 0}}
+	mkOrder := func() search.SortOrder { return topnBuildOrder(order, nil, topnFieldName) }
+	fset := aggsFieldsOfTree(tree)
+	fset[order[0].field] = true
+	var fields []string
+	for f := range fset {
+		fields = append(fields, topnFieldName(f))
+	}
+	sort.Strings(fields)
+	// the union match list: reader after reader, each in its searcher's order
+	var adocs []*aggsDoc
+	var hs []string
+	for _, rd := range readers {
+		var seen []map[string][][]byte
+		all := bluge.NewAllMatches(mkQuery())
+		all.AddAggregation("rec", &topnRecAgg{fields: fields, seen: &seen})
+		it, err := rd.Search(context.Background(), all)
+		if err != nil {
+			return err
+		}
+		k := 0
+		for {
+			m, err := it.Next()
+			if err != nil {
+				return err
+			}
+			if m == nil {
+				break
+			}
+			var id string
+			_ = m.VisitStoredFields(func(f string, v []byte) bool {
+				if f == "_id" {
+					id = string(v)
+				}
+				return true
+			})
+			g := byID[id]
+			adocs = append(adocs, &aggsDoc{number: m.Number, score: m.Score, kw: g.kw, nums: g.nums, dates: g.dates})
+			dv := map[int][][]byte{}
+			for f, vs := range seen[k] {
+				dv[topnFieldID(f)] = vs
+			}
+			hs = append(hs, topnCoqRawHit(m.Number, m.Score, dv, nil))
+			k++
+		}
+	}
+	n := len(adocs)
+	describe := func() []string {
+		out := make([]string, n)
+		for i, d := range adocs {
+			out[i] = fmt.Sprintf("#%d score=%v kw=%s nums=%v dates=%v", d.number, d.score, topnKwString(d.kw), d.nums, d.dates)
+		}
+		return out
+	}
+	var runs, rmeta []string
+	for q := 0; q < 3; q++ {
+		size := []int{0, 2, topnSwitchPoint + 1}[q]
+		from := []int{0, 1, 0}[q]
+		res := aggsRun(tree, func(aggs search.Aggregations) (*search.Bucket, error) {
+			req := bluge.NewTopNSearch(size, mkQuery()).SortByCustom(mkOrder()).SetFrom(from)
+			for name, a := range aggs {
+				req.AddAggregation(name, a)
+			}
+			it, err := bluge.MultiSearch(context.Background(), req, readers...)
+			if err != nil {
+				return nil, err
+			}
+			for {
+				m, err := it.Next()
+				if err != nil {
+					return nil, err
+				}
+				if m == nil {
+					return it.Aggregations(), nil
+				}
+			}
+		})
+		label := fmt.Sprintf("MultiSearch over %d indexes, TopNSearch n=%d from=%d", nIdx, size, from)
+		runs = append(runs, fmt.Sprintf("ARun (MTopN %s (PFrom %d)) %s", cq.I(size), from, res.coq))
+		rmeta = append(rmeta, label)
+		w.Count("multi:runs", 1)
+		if res.panicked {
+			w.OracleEval(1)
+			w.OracleFail("C16-panic", "MultiSearch with aggregations panicked", map[string]interface{}{"aggs": aggsTreeString(tree), "setting": label, "matches": describe()})
+			continue
+		}
+		for i, a := range tree {
+			failed := false
+			aggsOracle(w, aggsName(a.id), a.agg, res.obs[i], adocs, func(key, why string) {
+				if failed {
+					return
+				}
+				failed = true
+				w.OracleFail(key, why, map[string]interface{}{"aggs": aggsTreeString(tree), "order": topnOrderString(order), "setting": label, "matches": describe()})
+			})
+		}
+	}
+	w.Count("multi:matches", n)
+	w.Add(fmt.Sprintf("CAggs %s %s %s\n %s", aggsCoqSubs(tree), topnCoqOrder(order), cq.List(hs), cq.List(runs)), "multi", n > 0,
+		map[string]interface{}{"index": ii, "indexes": nIdx, "docs": nd, "matches": n, "aggs": aggsTreeString(tree), "order": topnOrderString(order), "settings": rmeta})
 	return nil
 }
